@@ -335,7 +335,7 @@ package endpoint
 //@   label C31.send.pop
 //@   ensures ref(m.comp.State.FlitsToSend) == old(ref(m.comp.State.FlitsToSend)) && off(m.comp.State.FlitsToSend) == old(off(m.comp.State.FlitsToSend)) + sendK(m) && len(m.comp.State.FlitsToSend) == old(len(m.comp.State.FlitsToSend)) - sendK(m)
 //@   label C31.send.inorder
-//@   ensures forall n in 0..sendK(m) :: sentIsFlit(m, old(sendCnt)[netP(m)] + n, n)
+//@   ensures forall k int :: old(sendCnt)[netP(m)] <= k && k < sendCnt[netP(m)] ==> sentIsFlit(m, k, k - old(sendCnt)[netP(m)])
 //@   label C31.send.stop
 //@   ensures sendK(m) < old(len(m.comp.State.FlitsToSend)) && sendK(m) < m.comp.spec.NumOutputChannels ==> !canSend[netP(m)]
 //@   label C31.send.log
@@ -345,23 +345,22 @@ package endpoint
 //@   assigns m.comp.State.FlitsToSend, canSend, sendCnt, sentTyp, sentVal, availCnt
 //@   loop 0: invariant epWF(m) && 0 <= i && numSent == i && i <= len(m.comp.State.FlitsToSend) && i <= max(0, m.comp.spec.NumOutputChannels) && (madeProgress <==> i > 0) && sendCnt[netP(m)] == old(sendCnt)[netP(m)] + i && availCnt == old(availCnt)
 //@   loop 0: invariant ref(m.comp.State.FlitsToSend) == old(ref(m.comp.State.FlitsToSend)) && off(m.comp.State.FlitsToSend) == old(off(m.comp.State.FlitsToSend)) && len(m.comp.State.FlitsToSend) == old(len(m.comp.State.FlitsToSend))
-//@   loop 0: invariant forall n in 0..i :: hastype(sentAt(netP(m), old(sendCnt)[netP(m)] + n), "packetization.Flit")
-//@   loop 0: invariant forall n in 0..i :: sentVal[netP(m)][old(sendCnt)[netP(m)] + n] <= allocTop
-//@   loop 0: invariant forall n in 0..i :: as(sentAt(netP(m), old(sendCnt)[netP(m)] + n), "packetization.Flit").MsgMeta.ID == old(m.comp.State.FlitsToSend[n].MsgMeta.ID)
-//@   loop 0: invariant forall n in 0..i :: as(sentAt(netP(m), old(sendCnt)[netP(m)] + n), "packetization.Flit").MsgMeta.Src == old(m.comp.State.FlitsToSend[n].MsgMeta.Src)
-//@   loop 0: invariant forall n in 0..i :: as(sentAt(netP(m), old(sendCnt)[netP(m)] + n), "packetization.Flit").MsgMeta.Dst == old(m.comp.State.FlitsToSend[n].MsgMeta.Dst)
-//@   loop 0: invariant forall n in 0..i :: as(sentAt(netP(m), old(sendCnt)[netP(m)] + n), "packetization.Flit").MsgMeta.TrafficClass == old(m.comp.State.FlitsToSend[n].MsgMeta.TrafficClass)
-//@   loop 0: invariant forall n in 0..i :: as(sentAt(netP(m), old(sendCnt)[netP(m)] + n), "packetization.Flit").MsgMeta.TrafficBytes == old(m.comp.State.FlitsToSend[n].MsgMeta.TrafficBytes)
-//@   loop 0: invariant forall n in 0..i :: as(sentAt(netP(m), old(sendCnt)[netP(m)] + n), "packetization.Flit").MsgMeta.RspTo == old(m.comp.State.FlitsToSend[n].MsgMeta.RspTo)
-//@   loop 0: invariant forall n in 0..i :: as(sentAt(netP(m), old(sendCnt)[netP(m)] + n), "packetization.Flit").SeqID == old(m.comp.State.FlitsToSend[n].SeqID)
-//@   loop 0: invariant forall n in 0..i :: as(sentAt(netP(m), old(sendCnt)[netP(m)] + n), "packetization.Flit").NumFlitInMsg == old(m.comp.State.FlitsToSend[n].NumFlitInMsg)
-//@   loop 0: invariant forall n in 0..i :: as(sentAt(netP(m), old(sendCnt)[netP(m)] + n), "packetization.Flit").Msg.ID == old(m.comp.State.FlitsToSend[n].Msg.ID)
-//@   loop 0: invariant forall n in 0..i :: as(sentAt(netP(m), old(sendCnt)[netP(m)] + n), "packetization.Flit").Msg.Src == old(m.comp.State.FlitsToSend[n].Msg.Src)
-//@   loop 0: invariant forall n in 0..i :: as(sentAt(netP(m), old(sendCnt)[netP(m)] + n), "packetization.Flit").Msg.Dst == old(m.comp.State.FlitsToSend[n].Msg.Dst)
-//@   loop 0: invariant forall n in 0..i :: as(sentAt(netP(m), old(sendCnt)[netP(m)] + n), "packetization.Flit").Msg.TrafficClass == old(m.comp.State.FlitsToSend[n].Msg.TrafficClass)
-//@   loop 0: invariant forall n in 0..i :: as(sentAt(netP(m), old(sendCnt)[netP(m)] + n), "packetization.Flit").Msg.TrafficBytes == old(m.comp.State.FlitsToSend[n].Msg.TrafficBytes)
-//@   loop 0: invariant forall n in 0..i :: as(sentAt(netP(m), old(sendCnt)[netP(m)] + n), "packetization.Flit").Msg.RspTo == old(m.comp.State.FlitsToSend[n].Msg.RspTo)
-//@   loop 0: invariant forall n in 0..i :: as(sentAt(netP(m), old(sendCnt)[netP(m)] + n), "packetization.Flit").MsgTaskID == old(m.comp.State.FlitsToSend[n].MsgTaskID)
+//@   loop 0: invariant forall k int :: old(sendCnt)[netP(m)] <= k && k < old(sendCnt)[netP(m)] + i ==> hastype(sentAt(netP(m), k), "packetization.Flit") && sentVal[netP(m)][k] <= allocTop
+//@   loop 0: invariant forall k int :: old(sendCnt)[netP(m)] <= k && k < old(sendCnt)[netP(m)] + i ==> as(sentAt(netP(m), k), "packetization.Flit").MsgMeta.ID == old(m.comp.State.FlitsToSend[k - old(sendCnt)[netP(m)]].MsgMeta.ID)
+//@   loop 0: invariant forall k int :: old(sendCnt)[netP(m)] <= k && k < old(sendCnt)[netP(m)] + i ==> as(sentAt(netP(m), k), "packetization.Flit").MsgMeta.Src == old(m.comp.State.FlitsToSend[k - old(sendCnt)[netP(m)]].MsgMeta.Src)
+//@   loop 0: invariant forall k int :: old(sendCnt)[netP(m)] <= k && k < old(sendCnt)[netP(m)] + i ==> as(sentAt(netP(m), k), "packetization.Flit").MsgMeta.Dst == old(m.comp.State.FlitsToSend[k - old(sendCnt)[netP(m)]].MsgMeta.Dst)
+//@   loop 0: invariant forall k int :: old(sendCnt)[netP(m)] <= k && k < old(sendCnt)[netP(m)] + i ==> as(sentAt(netP(m), k), "packetization.Flit").MsgMeta.TrafficClass == old(m.comp.State.FlitsToSend[k - old(sendCnt)[netP(m)]].MsgMeta.TrafficClass)
+//@   loop 0: invariant forall k int :: old(sendCnt)[netP(m)] <= k && k < old(sendCnt)[netP(m)] + i ==> as(sentAt(netP(m), k), "packetization.Flit").MsgMeta.TrafficBytes == old(m.comp.State.FlitsToSend[k - old(sendCnt)[netP(m)]].MsgMeta.TrafficBytes)
+//@   loop 0: invariant forall k int :: old(sendCnt)[netP(m)] <= k && k < old(sendCnt)[netP(m)] + i ==> as(sentAt(netP(m), k), "packetization.Flit").MsgMeta.RspTo == old(m.comp.State.FlitsToSend[k - old(sendCnt)[netP(m)]].MsgMeta.RspTo)
+//@   loop 0: invariant forall k int :: old(sendCnt)[netP(m)] <= k && k < old(sendCnt)[netP(m)] + i ==> as(sentAt(netP(m), k), "packetization.Flit").SeqID == old(m.comp.State.FlitsToSend[k - old(sendCnt)[netP(m)]].SeqID)
+//@   loop 0: invariant forall k int :: old(sendCnt)[netP(m)] <= k && k < old(sendCnt)[netP(m)] + i ==> as(sentAt(netP(m), k), "packetization.Flit").NumFlitInMsg == old(m.comp.State.FlitsToSend[k - old(sendCnt)[netP(m)]].NumFlitInMsg)
+//@   loop 0: invariant forall k int :: old(sendCnt)[netP(m)] <= k && k < old(sendCnt)[netP(m)] + i ==> as(sentAt(netP(m), k), "packetization.Flit").Msg.ID == old(m.comp.State.FlitsToSend[k - old(sendCnt)[netP(m)]].Msg.ID)
+//@   loop 0: invariant forall k int :: old(sendCnt)[netP(m)] <= k && k < old(sendCnt)[netP(m)] + i ==> as(sentAt(netP(m), k), "packetization.Flit").Msg.Src == old(m.comp.State.FlitsToSend[k - old(sendCnt)[netP(m)]].Msg.Src)
+//@   loop 0: invariant forall k int :: old(sendCnt)[netP(m)] <= k && k < old(sendCnt)[netP(m)] + i ==> as(sentAt(netP(m), k), "packetization.Flit").Msg.Dst == old(m.comp.State.FlitsToSend[k - old(sendCnt)[netP(m)]].Msg.Dst)
+//@   loop 0: invariant forall k int :: old(sendCnt)[netP(m)] <= k && k < old(sendCnt)[netP(m)] + i ==> as(sentAt(netP(m), k), "packetization.Flit").Msg.TrafficClass == old(m.comp.State.FlitsToSend[k - old(sendCnt)[netP(m)]].Msg.TrafficClass)
+//@   loop 0: invariant forall k int :: old(sendCnt)[netP(m)] <= k && k < old(sendCnt)[netP(m)] + i ==> as(sentAt(netP(m), k), "packetization.Flit").Msg.TrafficBytes == old(m.comp.State.FlitsToSend[k - old(sendCnt)[netP(m)]].Msg.TrafficBytes)
+//@   loop 0: invariant forall k int :: old(sendCnt)[netP(m)] <= k && k < old(sendCnt)[netP(m)] + i ==> as(sentAt(netP(m), k), "packetization.Flit").Msg.RspTo == old(m.comp.State.FlitsToSend[k - old(sendCnt)[netP(m)]].Msg.RspTo)
+//@   loop 0: invariant forall k int :: old(sendCnt)[netP(m)] <= k && k < old(sendCnt)[netP(m)] + i ==> as(sentAt(netP(m), k), "packetization.Flit").MsgTaskID == old(m.comp.State.FlitsToSend[k - old(sendCnt)[netP(m)]].MsgTaskID)
 //@   loop 0: invariant sendLogKept(m)
 //@   loop 1: invariant -1 <= rangeindex && rangeindex < len(m.devicePorts) && (forall p int :: availCnt[p] >= old(availCnt)[p])
 //@   loop 1: invariant forall j in 0..rangeindex + 1 :: availCnt[ifaceval(m.devicePorts[j])] > old(availCnt)[ifaceval(m.devicePorts[j])]
